@@ -97,6 +97,9 @@ typedef struct vf_type {
     int  (*ilu_QuerySpace)(SuperMatrix*, SuperMatrix*, mem_usage_t*);
     void (*fortran_gssv)(int *iopt, int *n, int_t *nnz, int *nrhs, void *values, int_t *rowind, int_t *colptr,
                          void *b, int *ldb, int64_t *f_factors, int_t *info);
+    void (*CompRow_to_CompCol)(int m, int n, int_t nnz, void *a, int_t *colind, int_t *rowptr, void **at, int_t **rowind, int_t **colptr);
+    void (*Copy_CompCol)(SuperMatrix *A, SuperMatrix *B);
+    void (*Copy_Dense)(int m, int n, void *X, int ldx, void *Y, int ldy);
 } vf_type;
 const vf_type *vf_T(int id);
 
